@@ -2,22 +2,29 @@
 
 package value
 
-import "github.com/smarthome-go/homescript/v3/homescript/analyzer/ast"
+import (
+	"golang.org/x/text/unicode/norm"
+
+	"github.com/smarthome-go/homescript/v3/homescript/analyzer/ast"
+)
+
+// nfc: strings held by string values are NFC-normalised.
+func nfc(s string) string { return norm.NFC.String(s) }
 
 // Specification vocabulary and contracts checked by /verif/hvc (build tag
 // verif only; see /verif/DESIGN.md).
 
 /*@ template for (self Value*) Clone
-    serves C13
-    trusted
+    serves C13, C02
+    assumepre Clone
     modifies nothing
     ensures result != nil && *result != nil
     ensures (*result).Kind() == self.Kind()
 @*/
 
 /*@ template for (self Value*) IsEqual
-    serves C13
-    trusted
+    serves C13, C02
+    assumepre IsEqual
     modifies nothing
     requires other != nil && other.Kind() == self.Kind()
     ensures ret1 != nil ==> *ret1 != nil
@@ -140,4 +147,84 @@ func shallowWF(v Value) bool {
     ensures @unchanged ret1 == nil && !allowCasts && isScalarType(typ) ==> *ret0 == val
     ensures @complete conforms(val, typ) && isScalarType(typ) ==> ret1 == nil
     ensures @strict-scalars !allowCasts && isScalarType(typ) && !conforms(val, typ) ==> ret1 != nil
+@*/
+
+// ---------------------------------------------------------------------------
+// C13: equality and copying of runtime values
+
+/*@ func (self ValueInt) IsEqual
+    ensures @scalar ret1 == nil && ret0 == (self.Inner == other.(ValueInt).Inner)
+@*/
+
+/*@ func (self ValueBool) IsEqual
+    ensures @scalar ret1 == nil && ret0 == (self.Inner == other.(ValueBool).Inner)
+@*/
+
+/*@ func (self ValueString) IsEqual
+    ensures @scalar ret1 == nil && ret0 == (self.Inner == other.(ValueString).Inner)
+@*/
+
+/*@ func (self ValueFloat) IsEqual
+    ensures @scalar ret1 == nil && ret0 == (self.Inner == other.(ValueFloat).Inner)
+@*/
+
+/*@ func (self ValueNull) IsEqual
+    ensures @scalar ret1 == nil && ret0
+@*/
+
+/*@ func (self ValueOption) IsEqual
+    requires shallowWF(self) && shallowWF(other)
+    ensures @none ret1 == nil && (self.Inner == nil || other.(ValueOption).Inner == nil) ==> ret0 == (self.Inner == nil && other.(ValueOption).Inner == nil)
+@*/
+
+/*@ func (self ValueRange) IsEqual
+    requires self.Start != nil && self.End != nil && other.(ValueRange).Start != nil && other.(ValueRange).End != nil
+    ensures @range ret1 == nil && ret0 == (*self.Start == *other.(ValueRange).Start && *self.End == *other.(ValueRange).End && self.EndIsInclusive == other.(ValueRange).EndIsInclusive)
+@*/
+
+/*@ func (self ValueList) IsEqual
+    requires self.Values != nil && other.(ValueList).Values != nil
+    ensures @same-length ret1 == nil && ret0 ==> len(*self.Values) == len(*other.(ValueList).Values)
+    loop 1 invariant 0 <= idx && idx <= len(*self.Values) && len(*otherList.Values) == len(*self.Values)
+    loop 1 decreases len(*self.Values) - idx
+@*/
+
+/*@ func (self ValueObject) IsEqual
+    ensures @same-keys ret1 == nil && ret0 ==> len(self.FieldsInternal) == len(other.(ValueObject).FieldsInternal)
+@*/
+
+/*@ func (self ValueAnyObject) IsEqual
+    ensures @same-keys ret1 == nil && ret0 ==> len(self.FieldsInternal) == len(other.(ValueAnyObject).FieldsInternal)
+@*/
+
+/*@ func (self ValueInt) Clone
+    ensures @copy (*result).(ValueInt).Inner == self.Inner && fresh(result)
+@*/
+
+/*@ func (self ValueBool) Clone
+    ensures @copy (*result).(ValueBool).Inner == self.Inner && fresh(result)
+@*/
+
+/*@ func (self ValueString) Clone
+    ensures @copy (*result).(ValueString).Inner == nfc(self.Inner) && fresh(result)
+@*/
+
+/*@ func (self ValueList) Clone
+    requires self.Values != nil
+    ensures @copy fresh(result) && (*result).(ValueList).Values != nil && fresh((*result).(ValueList).Values) && len(*(*result).(ValueList).Values) == len(*self.Values)
+    ensures @unshared cap(*(*result).(ValueList).Values) == 0 || fresh(*(*result).(ValueList).Values)
+@*/
+
+/*@ func (self ValueObject) Clone
+    ensures @copy fresh(result) && fresh((*result).(ValueObject).FieldsInternal)
+@*/
+
+/*@ func (self ValueOption) Clone
+    requires shallowWF(self)
+    ensures @copy fresh(result) && (((*result).(ValueOption).Inner == nil) == (self.Inner == nil))
+@*/
+
+/*@ func (self ValueRange) Clone
+    requires self.Start != nil && self.End != nil && *self.Start != nil && *self.End != nil && (*self.Start).Kind() == IntValueKind && (*self.End).Kind() == IntValueKind
+    ensures @copy fresh(result) && (*result).(ValueRange).EndIsInclusive == self.EndIsInclusive
 @*/
